@@ -136,6 +136,7 @@ def parseOp : List String → Option Op
   | ["dereg", h] => h.toNat?.map .dereg
   | ["wait", h, "cancelled"] => h.toNat?.map (.wait · .cancelled)
   | ["wait", h, "timeout"] => h.toNat?.map (.wait · .timeout)
+  | ["wait", h, "short"] => h.toNat?.map (.wait · .timeout)   -- a very short deadline
   | _ => none
 
 def showOut : Out → String
